@@ -9,6 +9,7 @@ From Hy Require Import model.C05_Frag.
 From Hy Require Import model.C09_ACL proof.C09_ACL model.C08_Adapter proof.C08_Adapter.
 From Hy Require Import model.C08_UDPPolicy proof.C08_UDPPolicy model.C08_Feed proof.C08_Feed proof.C08_FeedC05.
 From Hy Require Import model.C08_Raw proof.C08_Raw.
+From Hy Require Import model.C08_Fail proof.C08_Fail proof.C08_Leaf.
 From Coq Require Import NArith List.
 Import ListNotations.
 
@@ -290,3 +291,148 @@ Theorem C08_raw_example :
   = [ FWrite _ (Some ex_a) ex_a true; FDrop _ ex_b ].
 Proof. exact raw_example. Qed.
 Print Assumptions C08_raw_example.
+
+(* ---- third layer (model/C08_Fail.v): the policy may FAIL, and the dial-time policy and the per-datagram policy are two
+   functions.  Qd a / Qc a : what Outbound.UDP(a) of a fresh session / Outbound.CheckUDP(a) does - PAllow, PDeny, or PFail
+   (it panics); the hook may panic too (None); iow is the code between checkAddr and the outbound (udpIOImpl.CheckUDP), which
+   for the code is io_result: the answer is passed on, a panic propagates (the Feed is aborted before anything is cached or
+   written; out of the dial it leaves the entry wedged: SDead).  The two hypotheses:
+     wrapper_safe iow          - the wrapper reports "allowed" only when the outbound said "allowed"  (proved for io_result);
+     forall a, Qc a = PAllow -> Qd a = PAllow
+                               - CheckUDP never allows what UDP of a fresh session refuses: a hypothesis on the OUTBOUND,
+                                 proved below for the ACL pipeline over the leaf outbounds of extras/outbounds and checked on
+                                 every run for each real implementation by the harness. ---- *)
+
+Theorem C08_io_wrapper_passes_failure_on : wrapper_safe io_result.
+Proof. exact io_result_safe. Qed.
+Print Assumptions C08_io_wrapper_passes_failure_on.
+
+(* Only "allowed" answers enter the decision cache as allowed: whatever failed on the way, a destination cached as allowed
+   is one for which a fresh session could be dialed. *)
+Theorem C08_fail_cache_only_allowed :
+  forall (addr : Type) (aeqb : addr -> addr -> bool), (forall a b, aeqb a b = true <-> a = b) ->
+  forall (empty : addr) (Qd Qc : addr -> pres) (hook : addr -> option (hookres addr)) (iow : pres -> Res bool),
+  wrapper_safe iow -> (forall a, Qc a = PAllow -> Qd a = PAllow) ->
+  forall ins st os,
+  Forall (wf_input addr empty) ins ->
+  run3 addr aeqb empty Qd Qc hook iow (S3 addr None) ins = (st, os) ->
+  match st with S3 _ (Some s) => forall a, In (a, true) (s_cache _ s) -> Qd a = PAllow | _ => True end.
+Proof. exact fail_cache_only_allowed. Qed.
+Print Assumptions C08_fail_cache_only_allowed.
+
+(* A destination on which the policy did not say "allowed" (it rejected it, or it failed) is never written to: not by the
+   Feed in which the policy failed, not by any later one. *)
+Theorem C08_fail_never_written :
+  forall (addr : Type) (aeqb : addr -> addr -> bool), (forall a b, aeqb a b = true <-> a = b) ->
+  forall (empty : addr) (Qd Qc : addr -> pres) (hook : addr -> option (hookres addr)) (iow : pres -> Res bool),
+  wrapper_safe iow -> (forall a, Qc a = PAllow -> Qd a = PAllow) ->
+  forall ins st os x,
+  Forall (wf_input addr empty) ins ->
+  run3 addr aeqb empty Qd Qc hook iow (S3 addr None) ins = (st, os) ->
+  Qd x <> PAllow -> forall o, In o os -> o3_out _ o <> O3 _ (OFwd _ x).
+Proof. exact fail_never_written. Qed.
+Print Assumptions C08_fail_never_written.
+
+(* A Feed out of which a failure propagates writes nothing (its output is OPanic, not a write) and leaves the entry exactly
+   as it was - in particular its cache - or, when the failure left the dial of a fresh entry, wedged.  For every wrapper. *)
+Theorem C08_fail_changes_nothing :
+  forall (addr : Type) (aeqb : addr -> addr -> bool), (forall a b, aeqb a b = true <-> a = b) ->
+  forall (empty : addr) (Qd Qc : addr -> pres) (hook : addr -> option (hookres addr)) (iow : pres -> Res bool) st i st' o,
+  step3 addr aeqb empty Qd Qc hook iow st i = (st', o) -> o3_out _ o = OPanic _ ->
+  st' = st \/ (st = S3 _ None /\ st' = SDead _).
+Proof. exact fail_changes_nothing. Qed.
+Print Assumptions C08_fail_changes_nothing.
+
+(* The first layer (every theorem above it) is this layer with one two-valued policy behind both entry points, a hook that
+   does not panic and the code's wrapper. *)
+Theorem C08_fail_refines :
+  forall (addr : Type) (aeqb : addr -> addr -> bool) (empty : addr) (P : addr -> bool) (hook : addr -> hookres addr) ins st,
+  run3 addr aeqb empty (fun a => pres_of_bool (P a)) (fun a => pres_of_bool (P a)) (fun a => Some (hook a)) io_result (S3 _ st) ins =
+  (S3 _ (fst (run addr aeqb empty P hook st ins)), map (lift_obs _) (snd (run addr aeqb empty P hook st ins))).
+Proof. exact run3_refines. Qed.
+Print Assumptions C08_fail_refines.
+
+(* Non-vacuity: 1 allowed, 2 the policy fails, 3 rejected; 1, 2, 3, 1, 2: the failing destination is never written, never cached. *)
+Theorem C08_example_policy_fails :
+  let r := run3 N N.eqb 0%N exq exq (fun _ => Some HKeep) io_result (S3 N None) exq_ins in
+  map (o3_out N) (snd r) = [O3 N (OFwd N 1%N); OPanic N; O3 N (ODrop N); O3 N (OFwd N 1%N); OPanic N] /\
+  fst r = S3 N (Some (mkSess N 0%N 0%N [(3%N, false); (1%N, true)])).
+Proof. exact example_policy_fails. Qed.
+Print Assumptions C08_example_policy_fails.
+
+(* The wrapper hypothesis is needed: a CheckUDP wrapper that recovers the outbound's panic into a local error variable while
+   its own result is unnamed returns nil; the destination the policy failed on is written to and cached as allowed. *)
+Theorem C08_recover_into_local_refuted :
+  exists (Q : N -> pres) ins x,
+    Q x = PFail /\ Forall (wf_input N 0%N) ins /\
+    let r := run3 N N.eqb 0%N Q Q (fun _ => Some HKeep) io_recover_into_local (S3 N None) ins in
+    In (O3 N (OFwd N x)) (map (o3_out N) (snd r)) /\
+    match fst r with S3 _ (Some s) => In (x, true) (s_cache N s) | _ => False end.
+Proof. exact recover_into_local_refuted. Qed.
+Print Assumptions C08_recover_into_local_refuted.
+
+(* The outbound hypothesis is needed: with a CheckUDP that allows a destination UDP refuses, that destination is written to
+   inside a session opened on another one. *)
+Theorem C08_inconsistent_check_refuted :
+  exists (Qd Qc : N -> pres) ins x,
+    Qd x = PDeny /\ Forall (wf_input N 0%N) ins /\
+    In (O3 N (OFwd N x))
+       (map (o3_out N) (snd (run3 N N.eqb 0%N Qd Qc (fun _ => Some HKeep) io_result (S3 N None) ins))).
+Proof. exact inconsistent_check_refuted. Qed.
+Print Assumptions C08_inconsistent_check_refuted.
+
+(* ---- the outbound hypothesis for the compositions of extras/outbounds: resolver -> aclEngine -> leaf, the leaves being
+   direct / SOCKS5 / HTTP proxy / reject (leaf_udp, leaf_check: model/C08_Fail.v) under any names and any rule set. ---- *)
+
+(* every leaf implementation, a SOCKS5 proxy that does not grant UDP ASSOCIATE excepted (its UDP() fails for an
+   environmental reason while its CheckUDP() has no way to know) *)
+Theorem C08_leaves_consistent : forall l, l <> LSocks5 false -> leaf_consistent leaf_check leaf_udp l.
+Proof. exact leaf_consistent_real. Qed.
+Print Assumptions C08_leaves_consistent.
+
+(* whichever leaf the rules select for a destination: the pipeline's CheckUDP never allows what its UDP refuses *)
+Theorem C08_pipeline_check_implies_dial :
+  forall (ip_str : ip -> str) (rs : list rule) (dflt : N) (resolve : str -> option (ip * ip)) (leaves : N -> leaf)
+         (chk udp : leaf -> bool),
+  (forall ob, leaf_consistent chk udp (leaves ob)) ->
+  forall h p, pipe_check ip_str rs dflt resolve leaves chk h p = true -> pipe_dial ip_str rs dflt resolve leaves udp h p = true.
+Proof. exact pipe_check_implies_dial. Qed.
+Print Assumptions C08_pipeline_check_implies_dial.
+
+(* sessions over such a pipeline (split: net.SplitHostPort + parsePortUint16 of the adapter): nothing is written to a
+   destination for which a fresh session could not be dialed, whatever leaves the destinations of one session are routed to *)
+Theorem C08_pipeline_session_never_written :
+  forall (ip_str : ip -> str) (rs : list rule) (dflt : N) (resolve : str -> option (ip * ip)) (leaves : N -> leaf)
+         (chk udp : leaf -> bool) (addr : Type) (split : addr -> option (str * N))
+         (aeqb : addr -> addr -> bool), (forall a b, aeqb a b = true <-> a = b) ->
+  forall (empty : addr) (hook : addr -> option (hookres addr)) ins st os x,
+  (forall ob, leaf_consistent chk udp (leaves ob)) ->
+  Forall (wf_input addr empty) ins ->
+  run3 addr aeqb empty (Qd_pipe ip_str rs dflt resolve leaves udp addr split) (Qc_pipe ip_str rs dflt resolve leaves chk addr split)
+       hook io_result (S3 _ None) ins = (st, os) ->
+  Qd_pipe ip_str rs dflt resolve leaves udp addr split x <> PAllow -> forall o, In o os -> o3_out _ o <> O3 _ (OFwd _ x).
+Proof. exact pipe_session_never_written. Qed.
+Print Assumptions C08_pipeline_session_never_written.
+
+(* Non-vacuity: direct(a); default = an HTTP proxy.  A session on a:53, then b:53: dropped. *)
+Theorem C08_example_leaf_pipeline :
+  map (o3_out N)
+      (snd (run3 N N.eqb 0%N (Qd_pipe ip_str_hex exl_rules 2 exl_resolve exl_leaves leaf_udp N exl_split)
+                 (Qc_pipe ip_str_hex exl_rules 2 exl_resolve exl_leaves leaf_check N exl_split)
+                 (fun _ => Some HKeep) io_result (S3 N None) exl_ins)) =
+  [O3 N (OFwd N 1%N); O3 N (ODrop N); O3 N (OFwd N 1%N); O3 N (ODrop N)].
+Proof. exact example_leaf_pipeline. Qed.
+Print Assumptions C08_example_leaf_pipeline.
+
+(* An HTTP-proxy leaf whose CheckUDP says nil is not consistent: same rules, the pipeline's CheckUDP allows b:53, its UDP
+   refuses it, and the session opened on a:53 writes to b:53. *)
+Theorem C08_http_check_nil_refuted :
+  pipe_check ip_str_hex exl_rules 2 exl_resolve exl_leaves leaf_check_http_nil exl_b 53 = true /\
+  pipe_dial ip_str_hex exl_rules 2 exl_resolve exl_leaves leaf_udp exl_b 53 = false /\
+  In (O3 N (OFwd N 2%N))
+     (map (o3_out N)
+          (snd (run3 N N.eqb 0%N (Qd_pipe ip_str_hex exl_rules 2 exl_resolve exl_leaves leaf_udp N exl_split)
+                     (Qc_pipe ip_str_hex exl_rules 2 exl_resolve exl_leaves leaf_check_http_nil N exl_split)
+                     (fun _ => Some HKeep) io_result (S3 N None) exl_ins))).
+Proof. exact http_check_nil_refuted. Qed.
+Print Assumptions C08_http_check_nil_refuted.
